@@ -19,6 +19,9 @@
 (*                    proposer's own version moved                                        *)
 (* The repaired protocol is ValueEq = TRUE, Filter = TRUE, CommitRetry = TRUE on both     *)
 (* transports.                                                                            *)
+(* A fourth variant is selected by a definition override in the configuration:           *)
+(*   RejVal <- RejValWorking   a reject reply carries the working value instead of the   *)
+(*                    committed one (a lagging proposer installs an uncommitted write)    *)
 EXTENDS Integers, Sequences, FiniteSets, TLC
 
 CONSTANTS Nodes, Writers, MaxSect, MaxVer, DropBudget, DupBudget, Filter, ValueEq, SoloTries,
@@ -223,7 +226,13 @@ CommitDone(p) ==
 
 Ignored(a, m) == Filter /\ ValueEq /\ stimes[a][m.from] > m.st
 
-RejectOf(a)  == [err |-> FALSE, acc |-> FALSE, rver |-> version[a], rval |-> oldValue[a]]
+\* makeReject(): a reject reply carries the replica's version and its last COMMITTED value (oldValue, never the
+\* working value of a section in flight): a proposer that has fallen behind catches up from it (Learn / AcceptNew in
+\* Release). RejValWorking is the model variant "the reply carries the working value" (seed C11-A); a configuration
+\* selects it with  RejVal <- RejValWorking  (RWGen.tla / RWReplay.tla: schedule generators and vacuity guards).
+RejVal(a)        == oldValue[a]
+RejValWorking(a) == value[a]
+RejectOf(a)  == [err |-> FALSE, acc |-> FALSE, rver |-> version[a], rval |-> RejVal(a)]
 AcceptResp   == [err |-> FALSE, acc |-> TRUE, rver |-> 0, rval |-> 0]
 ErrResp      == [err |-> TRUE, acc |-> FALSE, rver |-> 0, rval |-> 0]
 
